@@ -6,6 +6,7 @@ package supv
 import (
 	"context"
 	"fmt"
+	"io"
 	"math/rand"
 	"os"
 	"path/filepath"
@@ -21,7 +22,7 @@ import (
 )
 
 // behaviours of a child process
-var Behaviours = []string{"exit0", "exit3", "sigusr1", "trapterm", "ignoreterm", "fork", "forkignore"}
+var Behaviours = []string{"exit0", "exit3", "sigusr1", "trapterm", "ignoreterm", "fork", "forkignore", "orphan0"}
 
 func script(beh, dir, name string, delayMs int) string {
 	pre := fmt.Sprintf("echo $$ > %s/%s.pid; ", dir, name)
@@ -39,6 +40,9 @@ func script(beh, dir, name string, delayMs int) string {
 		return pre + "trap '' TERM; sleep 20; exit 0"
 	case "fork":
 		return pre + fmt.Sprintf("sleep 30 & echo $! > %s/%s.c1; sleep 30 & echo $! > %s/%s.c2; wait; exit 0", dir, name, dir, name)
+	case "orphan0":
+		// the leader exits 0; a child it leaves behind (same process group) keeps the inherited output pipe open
+		return pre + fmt.Sprintf("(sleep 30; echo late) & echo $! > %s/%s.c1; sleep %s; exit 0", dir, name, d)
 	case "forkignore":
 		return pre + fmt.Sprintf("trap '' TERM; sleep 30 & echo $! > %s/%s.c1; wait; exit 0", dir, name)
 	}
@@ -82,7 +86,7 @@ type Options struct {
 	// termination event must still arrive once the reader starts (events may wait, they may not get lost)
 	Burst         bool
 	PauseReaderMs int
-	Fake  func(r *rec.Recorder) supvmodel.ProcessSupervisor // nil: the real LocalSupervisor
+	Fake          func(r *rec.Recorder) supvmodel.ProcessSupervisor // nil: the real LocalSupervisor
 }
 
 // Run executes one random program and returns the recorded events.
@@ -142,14 +146,20 @@ func Run(opt Options) []rec.Event {
 			beh, delay, ops = []string{"exit0", "exit3"}[rnd.Intn(2)], 0, 0
 		}
 		seed := rnd.Int63()
+		idx := i
 		wg.Add(1)
 		go func() {
 			defer wg.Done()
 			lr := rand.New(rand.NewSource(seed))
 			sc := script(beh, dir, name, delay)
 			r.Emit(name, "ExecCall", "name", name, "beh", beh, "delayMs", delay)
+			// output through a pipe and a copying goroutine (as with the emulator's log writers), or none
+			var outw io.Writer
+			if beh == "orphan0" || idx%2 == 0 {
+				outw = &sink{}
+			}
 			err := sv.Exec(context.Background(), &supvmodel.ExecRequest{Domain: "runtime", Name: name, Path: "/bin/sh", Args: []string{"-c", sc},
-				Env: &map[string]string{"PATH": "/usr/bin:/bin"}})
+				Env: &map[string]string{"PATH": "/usr/bin:/bin"}, StdoutWriter: outw, StderrWriter: outw})
 			r.Emit(name, "ExecRet", "name", name, "err", errs(err))
 			if err != nil {
 				return
@@ -232,6 +242,19 @@ func Run(opt Options) []rec.Event {
 	close(stop)
 	r.Emit("drv", "End")
 	return r.Events()
+}
+
+// sink is an io.Writer that is not a file: os/exec copies the child's output into it through a pipe
+type sink struct {
+	mu sync.Mutex
+	n  int
+}
+
+func (s *sink) Write(b []byte) (int, error) {
+	s.mu.Lock()
+	s.n += len(b)
+	s.mu.Unlock()
+	return len(b), nil
 }
 
 func errs(err error) string {
